@@ -8,7 +8,8 @@
   * FieldIndex takes `view` / the trimmed `column` from the reference, `idx := -1` directly before the loop;
   * SearchIndex sends column numbers to FieldNumberIndex, everything else to FieldIndex; ContainsObject resolves
     field references through SearchIndex; Header.Update sets the view name of every field and clears its aliases;
-  * View.Fix copies the selected header fields and clears Identifier, Aliases, IsJoinColumn, IsGroupKey, sets Number and
+  * View.Fix re-projects the records unless selectFields is the identity (every index compared with its position), then
+    copies the selected header fields and clears Identifier, Aliases, IsJoinColumn, IsGroupKey, sets Number and
     IsFromTable, takes the select label as column name; IsJoinColumn is SET only by joinViews (USING / NATURAL merge)
     and CLEARED only by View.Fix; Aliases grow in evalColumn / AddHeaderField and are cleared by Fix and Update;
   * loadObject: stdin, data object, http object, inline file, recursive working view, CTE, temporary table, file;
@@ -422,5 +423,27 @@ def outerPadding : List String :=
 def outerRightSwaps : List String :=
   ["stmt3:view,joinView=joinView,view",
    "stmt12:view,joinView=joinView,view"]
+
+/-- `View.Fix` before the header loop: when and how the records are re-projected onto the selected fields -/
+def fixProjection : List String :=
+  ["fieldLen:=len(view.selectFields)",
+   "resize:=false",
+   "if(fieldLen!=view.FieldLen()){",
+   "resize=true",
+   "}else{",
+   "for(i:=0;i<view.FieldLen();i++){",
+   "if(view.selectFields[i]!=i){",
+   "resize=true",
+   "break",
+   "}",
+   "}",
+   "}",
+   "if(resize){",
+   "if(err:=NewGoroutineTaskManager(view.RecordLen(),-1,flags.CPU).Run(ctx,func(indexint)error{record:=make(Record,fieldLen)forj,idx:=rangeview.selectFields{record[j]=view.RecordSet[index][idx][:1]}iflen(view.RecordSet[index])<fieldLen{view.RecordSet[index]=make(Record,fieldLen)}elseiffieldLen<len(view.RecordSet[index]){view.RecordSet[index]=view.RecordSet[index][:fieldLen]}fori:=rangerecord{view.RecordSet[index][i]=record[i]}returnnil});err!=nil){",
+   "returnerr",
+   "}",
+   "}",
+   "hfields:=NewEmptyHeader(len(view.selectFields))",
+   "colNumber:=0"]
 
 end Csvq.Ref
